@@ -15,7 +15,7 @@ ASSUMPTIONS = SSM_ASSUMPTIONS + [
 NOT_DECIDED = [
     "the numeric time bound itself: each timeout strictly decreases the retry measure (retries left, segment retries left) and re-arms one timer, or ends the transaction -- the sum of the armed intervals is not computed",
     "IOCB timeouts (IOCB.set_timeout arms a task that calls abort: covered by the idempotence of abort_io / complete_io, the task itself is C14)",
-    "an end-to-end run of two stacks over a faulty medium (whole-history composition is by the invariant argument, see assumptions)",
+    "end-to-end runs of two stacks over a faulty medium are bounded (simulation stage); the unbounded whole-history claim is by the invariant argument, see assumptions",
 ]
 EXPLANATION = ("A client transaction is a real ClientSSM object with symbolic fields, registered with a real StateMachineAccessPoint exactly when it is live. "
                "For every live state and every kind of inbound PDU (18 state x kind units, arbitrary header fields), for every timeout and for the start of a "
